@@ -12,7 +12,7 @@ From ReqV Require Import Lib.Bytes Model.Decode Model.BodyStages Model.H1Resp Mo
   Model.H2Info Proofs.H2InfoProofs Model.HeaderSlots Proofs.HeaderSlotsProofs Proofs.C07DigestAlg
   Model.H3Control Proofs.H3ControlProofs Proofs.C07H2Order
   Model.H2Wake Proofs.H2WakeProofs Model.H3Retry Proofs.H3RetryProofs.
-From ReqV Require Model.H2GoAway Proofs.H2GoAwayProofs.
+From ReqV Require Model.H2GoAway Proofs.H2GoAwayProofs Model.H2HdrLimit Proofs.H2HdrLimitProofs.
 From ReqV Require Model.Digest Gen.C07Consts Model.H3Frame Model.H3Limits Proofs.H3FrameProofs Proofs.H3LimitsProofs.
 From Coq Require Import Lia.
 Local Open Scope nat_scope.
@@ -391,6 +391,30 @@ Theorem C07_h2_goaway_state_is_all : forall fs1 fs2 rest,
   H2GoAway.goaway_run None (fs1 ++ rest) = H2GoAway.goaway_run None (fs2 ++ rest).
 Proof. exact H2GoAwayProofs.goaway_state_is_all. Qed.
 Print Assumptions C07_h2_goaway_state_is_all.
+
+(* ---------- HTTP/2: the header-list limit enforced is the one advertised, however configured ---------- *)
+
+(* a custom SETTINGS frame naming MAX_HEADER_LIST_SIZE: on the first connection of the transport and
+   on every later one the frame reader enforces exactly the value that goes out on the wire *)
+Theorem C07_h2_framer_limit_is_advertised : forall t k t' lim v,
+  H2HdrLimit.t_custom t <> [] -> H2HdrLimit.nth_conn true k t = (t', lim, Some v) ->
+  lim = H2HdrLimit.max_header_list_size v.
+Proof. exact H2HdrLimitProofs.framer_limit_is_advertised. Qed.
+Print Assumptions C07_h2_framer_limit_is_advertised.
+
+Theorem C07_h2_framer_limit_default_frame : forall t,
+  H2HdrLimit.t_custom t = [] -> let '(_, lim, adv) := H2HdrLimit.new_conn true t in
+  lim = H2HdrLimit.max_header_list_size (H2HdrLimit.t_mhls t) /\ (adv = None <-> lim = 0%N) /\
+  (forall v, adv = Some v -> v = lim).
+Proof. exact H2HdrLimitProofs.framer_limit_default_frame. Qed.
+Print Assumptions C07_h2_framer_limit_default_frame.
+
+Theorem C07_h2_framer_before_copy_refuted :
+  let t := {| H2HdrLimit.t_mhls := 0%N; H2HdrLimit.t_custom := [(2, 0); (6, 4096)]%N |} in
+  snd (fst (H2HdrLimit.nth_conn false 0 t)) = 10485760%N /\ snd (H2HdrLimit.nth_conn false 0 t) = Some 4096%N /\
+  snd (fst (H2HdrLimit.nth_conn false 1 t)) = 4096%N /\ snd (fst (H2HdrLimit.nth_conn true 0 t)) = 4096%N.
+Proof. exact H2HdrLimitProofs.framer_before_copy_refuted. Qed.
+Print Assumptions C07_h2_framer_before_copy_refuted.
 
 (* ---------- translator tie: limits and tables regenerated from the source ---------- *)
 
